@@ -373,7 +373,7 @@ func (p *parser) mul() *E {
 }
 
 func (p *parser) unary() *E {
-	for _, o := range []string{"!", "-", "^"} {
+	for _, o := range []string{"!", "-", "^", "*"} {
 		if p.isOp(o) {
 			p.next()
 			x := p.unary()
